@@ -125,3 +125,24 @@ Theorem C09_component_layout_is_sole_layout_translated_total : forall (A : Type)
                  xs1 = match x with Some v => [v] | None => [] end).
 Proof. exact C09Close.component_layout_is_sole_layout_translated_total. Qed.
 Print Assumptions C09_component_layout_is_sole_layout_translated_total.
+
+(* ---------- the same with the Brandes-Koepf positioner (Model/PipelineBK.v, Proofs/RenumberBK*.v). The balanced
+   layout folds min/max over the coordinate table in arena order, so its equivariance holds for ORDER-PRESERVING
+   renumberings (exec_bk_iso_needs_order is the counterexample otherwise, up to Qeq only); the renumbering of a
+   component is order preserving (component_sigma_smono), so the statement needs no side condition ---------- *)
+From Autog Require Import PipelineBK RenumberBK RenumberBK2.
+Theorem C09_component_layout_is_sole_layout_translated_brandes_koepf : forall (A : Type) (eqA : A -> A -> bool),
+  (forall x y, eqA x y = true <-> x = y) ->
+  forall bk o fixed sizes es ids g0 ns eo xs k c,
+  populate A eqA es = Ok (ids, g0) ->
+  layout_x A eqA bk o fixed sizes es = Ok (ids, (ns, eo, xs)) ->
+  nth_error (components (apply_sizes A eqA fixed sizes ids g0)) k = Some c ->
+  forall ids1 ns1 eo1 xs1,
+  layout_x A eqA bk o fixed sizes (map (fun i => nth i es []) (g_E c)) = Ok (ids1, (ns1, eo1, xs1)) ->
+  exists gs sigma, inj sigma /\ smono sigma /\ collect_all o gs 0 = (ns, eo) /\
+    Forall2 (fun c g => exists x, layout_component_x bk o c = Ok (g, x)) (components (apply_sizes A eqA fixed sizes ids g0)) gs /\
+    Forall2 (onode_shifted sigma (shift_at o gs 0 k)) ns1 (comp_nodes o gs 0 k) /\
+    Forall2 (oedge_shifted sigma (shift_at o gs 0 k)) eo1 (comp_edges o gs 0 k) /\
+    (exists x, layout_component_x bk o c = Ok (nth k gs graph0, x) /\ xs1 = match x with Some v => [v] | None => [] end).
+Proof. exact component_layout_x_is_sole_layout_translated. Qed.
+Print Assumptions C09_component_layout_is_sole_layout_translated_brandes_koepf.
